@@ -4,11 +4,11 @@ import Upa.Props.C10
 import Upa.Props.C14
 /-
   C03 — every setter behaves as the Standard's API setter, over any call sequence.
-  The full statement `Impl.setValid = Spec.apiSet` over all histories is tied three-way
-  (C++ / Impl / Spec) by the correspondence check on setter histories; it needs the state-override
-  versions of the C01 block simulations.  Proved here: the guards and ignore rules, i.e. "whenever the
-  Standard ignores an assignment the URL is left exactly as it was", on the model of the code, and the
-  two setters that do not run the parser (username, password) completely.
+  The full statement `Impl.setValid = Spec.apiSet`, for all ten setters and over all histories, is
+  `C03_setter_conforms` / `C03_history_*` in Props/C03b.lean.  This file holds the guards and ignore rules
+  ("whenever the Standard ignores an assignment the URL is left exactly as it was") on the model of the
+  code; several of them unfold the definition of `UrlObj.set` and are stated for the reader rather than as
+  independent obligations.
 -/
 namespace Upa.Props
 open Upa Upa.Impl
